@@ -86,6 +86,27 @@ def run(ctx: Ctx) -> Result:
             st2, it2, o2 = run_s(P(sa) + P(R) + P(t2) + op('DECRYPT_ADAPTER_SIG'))
             if st2 == 'OK' and len(it2) == 2 and ref_verify(X, m, it2[0] + it2[1]):
                 viol('decryption with another scalar verifies', {'script': dc.hex()}, 'not a signature', o2)
+    # what the instruction leaves in the cache (flags on by default): the cached R / sa / T are the adapter and its tweak point,
+    # so reading them back must pass the adapter check exactly like the stack outputs
+    rd = lambda k: op('READ_CACHE') + bytes([len(k)]) + k
+    for it in range(ctx.n(20, 200)):
+        seed = V.rbytes(rng, 32); X = bytes(SigningKey(seed).verify_key); m = V.rbytes(rng, rng.choice([0, 1, 20, 100]) ) or b'm'
+        t_raw = V.rbytes(rng, 32); Tp = nb.crypto_scalarmult_ed25519_base_noclamp(clamp(t_raw))
+        sc = P(seed) + P(m) + P(Tp) + op('MAKE_ADAPTER_SIG_PUBLIC') + op('POP0') + op('POP0') + rd(b'sa') + rd(b'R') + P(m) + rd(b'T') + P(X) + op('CHECK_ADAPTER_SIG')
+        rec(sc); res.note_case(('cached-triple', seed, m, t_raw))
+        st, items, o = run_s(sc)
+        if not (st == 'OK' and items and items[-1] == b'\xff'):
+            viol('the cached (sa, R, T) of MAKE_ADAPTER_SIG_PUBLIC do not pass CHECK_ADAPTER_SIG', {'script': sc.hex(), 'message': m.hex(), 'key': X.hex()}, 'true', o)
+    # the PRIVATE construction (known finding K4) is at least *executed* on the model and the implementation for every kind of
+    # tweak scalar - clamped, unclamped with bit 255 set, edge scalars - so that a change to it shows in the correspondence
+    for it in range(ctx.n(24, 200)):
+        seed = V.rbytes(rng, 32); m = V.rbytes(rng, rng.choice([1, 20, 64]))
+        tw = rng.choice([V.rbytes(rng, 32), bytes(V.rbytes(rng, 31)) + bytes([0x80 | rng.getrandbits(7)]), clamp(V.rbytes(rng, 32)), (1).to_bytes(32, 'little'), (L - 1).to_bytes(32, 'little'),
+                         (2**255 + 5).to_bytes(32, 'little'), b'\xff' * 32])
+        sc = P(m) + P(tw) + P(seed) + op('MAKE_ADAPTER_SIG_PRIVATE')
+        rec(sc); res.note_case(('private', seed, m, tw))
+        sc2 = sc + op('POP0') + op('POP0') + op('POP0') + rd(b't') + rd(b'T') + rd(b'sa')
+        rec(sc2)
     # histories in one cache: an earlier adapter for another tweak point must not influence a later decryption
     for it in range(ctx.n(30, 300)):
         seed = V.rbytes(rng, 32); X = bytes(SigningKey(seed).verify_key); m = V.rbytes(rng, 20)
